@@ -409,6 +409,27 @@ func runC03Natural(w *world.World, c caseC03Natural, rec *kit.Recorder) error {
 	}
 	if o.Out.Success {
 		rec.Label("cause/"+c.Cause, "success")
+		// the causes the statement lists make a step of THIS transfer impossible to complete
+		// (a recipient the bank or the token factory must refuse, a bridge that cannot take the
+		// request, coins that are not there): a success acknowledgement means the refusal was lost
+		// or a protection was bypassed
+		strict := false
+		switch c.Cause {
+		case "blocked-internal-recipient", "above-burn-limit", "cctp-unknown-domain", "cctp-burning-paused",
+			"hyp-unknown-domain", "hyp-unknown-token", "escrow-short", "receive-disabled":
+			strict = true
+		case "hyp-token-of-other-denom":
+			strict = c.Transfer.Denom != world.Ufoo // the token named is ufoo's own
+		case "ftf-paused", "blacklisted-internal-recipient", "blacklisted-orbiter":
+			strict = c.Transfer.Denom == world.Uusdc // the token factory governs uusdc only
+		case "blacklisted-fee-recipient":
+			// only when the fee does not round to zero: nothing is sent to a recipient owed nothing
+			strict = c.Transfer.Denom == world.Uusdc && len(c.Transfer.Actions) == 1 &&
+				len(kit.ModelFees(c.Transfer.AmountInt(), c.Transfer.Actions[0].Fees).Credits) > 0
+		}
+		if strict {
+			return fmt.Errorf("cause %s: the transfer cannot complete in this environment, yet the acknowledgement is a SUCCESS (ledger delta %s)", c.Cause, o.Delta)
+		}
 		// a success acknowledgement is legitimate only if every fund movement completed:
 		// the whole-ledger delta is exactly the model's
 		if err := checkC02Step(w, o, nil); err != nil {
